@@ -100,9 +100,11 @@ type c15State struct {
 	hostH  int64
 	depth  int
 	flagOn bool
+	client string // the L1 client id stored in the bridge info ("" = not configured yet)
 }
 
 type c15Sys struct {
+	unsetClient bool // the bridge info starts without an L1 client id
 	initial     string
 	probeDepth  int
 	genesisVals [][2]string // L2 genesis validators (used by C18)
@@ -114,6 +116,16 @@ type c15Sys struct {
 	atLine      atomic.Int64
 	rejected    atomic.Int64
 	reasons     sync.Map
+}
+
+// c15Unset marks the configuration whose bridge info starts without an L1 client id (the state of
+// a chain whose bridge info predates the field; SetBridgeInfo accepts it and lets it be set once).
+const c15Unset = "/client-id-unset"
+
+func c15SysFor(name string, probeDepth int) *c15Sys {
+	y := newC15Sys(strings.TrimSuffix(name, c15Unset), probeDepth)
+	y.unsetClient = strings.HasSuffix(name, c15Unset)
+	return y
 }
 
 func newC15Sys(initial string, probeDepth int) *c15Sys {
@@ -139,15 +151,32 @@ func (y *c15Sys) Root() *c15State {
 			panic(err)
 		}
 	}
-	info := c12Info(c15Client)
+	client := c15Client
+	if y.unsetClient {
+		client = ""
+	}
+	info := c12Info(client)
 	info.BridgeConfig.OracleEnabled = true
 	if r := w.Deliver(ctx, opchildtypes.NewMsgSetBridgeInfo(world.Addr("executor").String(), info)); !r.OK() {
 		panic(r.Err)
 	}
-	if err := w.K.UpdateHostValidatorSet(ctx, c15Client, 10, c15Sets[y.initial].proto()); err != nil {
+	if y.unsetClient {
+		// nothing can be recorded while no client id is configured: the oracle starts inert
+		return &c15State{ctx: ctx, w: w, set: "", hostH: 0, flagOn: true, client: ""}
+	}
+	if err := w.K.UpdateHostValidatorSet(ctx, client, 10, c15Sets[y.initial].proto()); err != nil {
 		panic(err)
 	}
-	return &c15State{ctx: ctx, w: w, set: y.initial, hostH: 10, flagOn: true}
+	return &c15State{ctx: ctx, w: w, set: y.initial, hostH: 10, flagOn: true, client: client}
+}
+
+// voters: the validators that sign in letters and probes — the recorded set, or, while none is
+// recorded, the set the configuration would record.
+func (y *c15Sys) voters(s *c15State) string {
+	if s.set == "" {
+		return y.initial
+	}
+	return s.set
 }
 
 func (y *c15Sys) Digest(s *c15State) [32]byte { return s.w.Digest(s.ctx) }
@@ -361,6 +390,9 @@ func (y *c15Sys) update(s *c15State, ctx sdk.Context, sender string, votes []c15
 		if int64(height) < s.hostH {
 			return true, true, viol("update-height-not-older-than-validator-set", "%s: %s changed by an update at height %d, validator set recorded at %d", label, p, height, s.hostH)
 		}
+		if s.set == "" {
+			return true, true, tagged(viol("price-change-needs-two-thirds-signed-quorum", "%s: %s changed (%v -> %v) although no L1 validator set is recorded", label, p, b, a), "pair", p)
+		}
 		pw := int64(0)
 		for i, k := range set.vals {
 			if good[p][k] {
@@ -393,6 +425,7 @@ type c15Refresh struct {
 	set    string
 }
 type c15Flag struct{ on bool }
+type c15SetClient struct{ client string }
 
 var c15Ts = []int64{1_000_000_000, 2_000_000_000, 3_000_000_000}
 
@@ -410,15 +443,26 @@ func (y *c15Sys) Letters(s *c15State) []engine.Letter {
 		}
 	}
 	ls = append(ls, engine.Letter{Name: "SetOracleFlag(off)", Data: c15Flag{false}}, engine.Letter{Name: "SetOracleFlag(on)", Data: c15Flag{true}})
+	if s.client == "" {
+		ls = append(ls, engine.Letter{Name: "SetL1ClientId(" + c15Client + ")", Data: c15SetClient{c15Client}})
+	}
 	return ls
 }
 
 func (y *c15Sys) Step(s *c15State, l engine.Letter) (*c15State, string, *engine.Violation) {
 	ctx, _ := s.ctx.CacheContext()
-	c := &c15State{ctx: ctx, w: s.w, set: s.set, hostH: s.hostH, depth: s.depth + 1, flagOn: s.flagOn}
+	c := &c15State{ctx: ctx, w: s.w, set: s.set, hostH: s.hostH, depth: s.depth + 1, flagOn: s.flagOn, client: s.client}
 	switch d := l.Data.(type) {
+	case c15SetClient:
+		info := c12Info(d.client)
+		info.BridgeConfig.OracleEnabled = s.flagOn
+		if r := s.w.Deliver(ctx, opchildtypes.NewMsgSetBridgeInfo(world.Addr("executor").String(), info)); !r.OK() {
+			return c, "rejected", viol("harness-expectation", "SetBridgeInfo failed: %v", r.Err)
+		}
+		c.client = d.client
+		return c, "ok", nil
 	case c15Flag:
-		info := c12Info(c15Client)
+		info := c12Info(s.client)
 		info.BridgeConfig.OracleEnabled = d.on
 		if r := s.w.Deliver(ctx, opchildtypes.NewMsgSetBridgeInfo(world.Addr("executor").String(), info)); !r.OK() {
 			return c, "rejected", viol("harness-expectation", "SetBridgeInfo failed: %v", r.Err)
@@ -426,7 +470,7 @@ func (y *c15Sys) Step(s *c15State, l engine.Letter) (*c15State, string, *engine.
 		c.flagOn = d.on
 		return c, "ok", nil
 	case c15Update:
-		set := c15Sets[s.set]
+		set := c15Sets[y.voters(s)]
 		shape := shPriceP
 		if d.pairs == "noBTC" {
 			shape = shNoBTC
@@ -454,8 +498,8 @@ func (y *c15Sys) Step(s *c15State, l engine.Letter) (*c15State, string, *engine.
 			return c, "error", viol("valset-refresh-does-not-fail", "UpdateHostValidatorSet returned %v", err)
 		}
 		if s.w.Digest(ctx) != before {
-			if d.client != c15Client || h <= s.hostH {
-				return c, "replaced", tagged(viol("valset-replaced-only-by-higher-height-from-configured-client", "validator set changed by a refresh from client %q at height %d (recorded %d)", d.client, h, s.hostH), "client", d.client)
+			if d.client != s.client || h <= s.hostH {
+				return c, "replaced", tagged(viol("valset-replaced-only-by-higher-height-from-configured-client", "validator set changed by a refresh from client %q at height %d (recorded %d, configured client %q)", d.client, h, s.hostH, s.client), "client", d.client)
 			}
 			c.set = d.set
 			c.hostH = h
@@ -468,12 +512,12 @@ func (y *c15Sys) Step(s *c15State, l engine.Letter) (*c15State, string, *engine.
 
 func (y *c15Sys) Check(s *c15State) *engine.Violation {
 	// host height recorded = model
-	if h, err := s.w.K.HostValidatorStore.GetLastHeight(s.ctx); err != nil || h != s.hostH {
+	if h, err := s.w.K.HostValidatorStore.GetLastHeight(s.ctx); (err != nil && s.set != "") || h != s.hostH {
 		return viol("valset-replaced-only-by-higher-height-from-configured-client", "recorded validator-set height %d, model %d (err=%v)", h, s.hostH, err)
 	}
 	full := s.depth <= y.probeDepth // full shape matrix only near the root; the thinned family everywhere
 	// Mode P: every combination of vote shapes
-	set := c15Sets[s.set]
+	set := c15Sets[y.voters(s)]
 	n := len(set.vals)
 	idx := make([]int, n)
 	// a timestamp above everything stored so far and one equal to the newest stored
@@ -562,7 +606,7 @@ func init() {
 	register(&Check{ID: "C15", Level: "model_checking",
 		Run: func(rc *engine.RunCtx) *engine.Result {
 			res := engine.NewResult()
-			sets := []string{"V(1,1,1)", "V(3,1,1)"}
+			sets := []string{"V(1,1,1)", "V(3,1,1)", "V(1,1,1)" + c15Unset}
 			if rc.Thorough() {
 				sets = append(sets, "V(2,1,1,1)")
 			}
@@ -571,7 +615,7 @@ func init() {
 				if rc.Thorough() && name != "V(2,1,1,1)" {
 					pd = 1
 				}
-				y := newC15Sys(name, pd)
+				y := c15SysFor(name, pd)
 				o := opts(rc, pick(rc, 3, 4))
 				o.Deadline = time.Now().Add(time.Until(rc.Deadline()) / time.Duration(len(sets)-i))
 				rep, err := engine.Explore[*c15State](y, o)
@@ -586,16 +630,16 @@ func init() {
 				res.Require(y.changed.Load() > 0 && y.rejected.Load() > 0, "%s: vote matrix is one-sided", name)
 				res.Require(res.OutcomeCount(name, "Update/accepted-changed") > 0 && res.OutcomeCount(name, "Update/rejected") > 0 && res.OutcomeCount(name, "ValsetRefresh/replaced") > 0 && res.OutcomeCount(name, "ValsetRefresh/ignored") > 0, "%s: history outcomes missing", name)
 			}
-			res.Coverage["alphabet"] = "histories: Update(timestamp∈{t1<t2<t3}, all validators sign all pairs | all but BTC), ValsetRefresh(height∈{recorded-1, recorded, recorded+5}, client∈{configured, other, \"\"}, set∈{V,V'}), SetOracleFlag(on|off); probe family (root state, and every depth-1 state in the thorough tier): all 14^n combinations of per-validator vote shapes {absent, signed p, signed q, no BTC price, no timestamp, bad signature, other chain id, other height, other round, listed twice, non-commit empty, non-commit with extension and signature, non-commit with unsigned extension, non-commit with signature only} × unknown validator present/absent, plus sender / update-height / timestamp variations"
+			res.Coverage["alphabet"] = "histories: Update(timestamp∈{t1<t2<t3}, all validators sign all pairs | all but BTC), ValsetRefresh(height∈{recorded-1, recorded, recorded+5}, client∈{configured, other, other of another length, \"\"}, set∈{V,V'}), SetOracleFlag(on|off), and — in the configuration whose bridge info starts without an L1 client id — SetL1ClientId; probe family (root state, and every depth-1 state in the thorough tier): all 14^n combinations of per-validator vote shapes {absent, signed p, signed q, no BTC price, no timestamp, bad signature, other chain id, other height, other round, listed twice, non-commit empty, non-commit with extension and signature, non-commit with unsigned extension, non-commit with signature only} × unknown validator present/absent, plus sender / update-height / timestamp variations"
 			res.Coverage["oracle"] = "a pair's stored price or timestamp changed ⇒ sender is a bridge executor ∧ oracle flag on ∧ update height ≥ recorded validator-set height ∧ the distinct known validators that (by the harness's own signing bookkeeping) supplied a price for that pair under a correct commit-flag signature over (L1 chain id, height-1, round, extension) hold ≥ 2/3 of the recorded power ∧ the new timestamp is strictly greater; rejected ⇒ digest unchanged; validator set changed ⇒ refresh from the configured client at a strictly higher height"
 			res.Assumptions = []string{"real connect x/oracle keeper, codecs and vote aggregator; validator sets (1,1,1), (3,1,1) and, thorough, (2,1,1,1)"}
 			return res
 		},
 		Replay: func(kind string, path []string) ([]string, *engine.Violation, error) {
-			if _, ok := c15Sets[kind]; !ok {
+			if _, ok := c15Sets[strings.TrimSuffix(kind, c15Unset)]; !ok {
 				return nil, nil, fmt.Errorf("unknown replay kind %q", kind)
 			}
-			return engine.Replay[*c15State](newC15Sys(kind, 1), path)
+			return engine.Replay[*c15State](c15SysFor(kind, 1), path)
 		},
 	})
 }
